@@ -217,15 +217,12 @@ theorem deliverQ_tables (U : Universe) (s : St) (q : QEv) : SameTables s (delive
     · exact deliverPlain_tables U s ev args
     · exact .refl s
   | relay event h ent =>
-    simp only [deliverQ]
+    simp only [deliverQ, deliverRelay]
     split
     · exact .refl s
     · split
       · exact .refl s
-      · refine SameTables.trans ?_ (callCb_tables U _ h _ _)
-        split
-        · split <;> exact ⟨rfl, rfl, rfl, rfl, rfl, rfl, rfl⟩
-        · exact .refl s
+      · exact SameTables.trans (ctrlRecord_tables U s event h ent) (callCb_tables U _ h _ _)
 
 theorem releaseQ_tables (U : Universe) (s : St) (qs : List QEv) :
     SameTables s (releaseQ U s qs).1 := by
